@@ -81,6 +81,19 @@ def oracle(f, ops, rng):
             fails.append(rep("regression-centre", "predict_regression is not the target-channel centre of the predicted category"))
     except Exception as e:
         fails.append(rep("regression-raises", f"predict_regression raises {type(e).__name__}: {str(e)[:60]}"))
+    # several target channels: one array per target, each the centre of that channel of the predicted category
+    if len(skip_given) >= 2:
+        try:
+            regs = est.predict_regression(Q1, target_channels=list(skip_given))
+            cpred = est.predict(Q1, skip_channels=list(skip_given))
+            ok = isinstance(regs, list) and len(regs) == len(skip_given)
+            for jt, tg in enumerate(skip_given):
+                cen = est.get_channel_centers(tg if tg >= 0 else n + tg)
+                ok = ok and all(np.array_equal(np.asarray(regs[jt][j]), np.asarray(cen[int(cpred[j])])) for j in range(len(Q1)))
+            if not ok:
+                fails.append(rep("regression-centre", f"predict_regression(target_channels={skip_given}) is not the list of target-channel centres of the predicted category"))
+        except Exception as e:
+            fails.append(rep("regression-raises", f"predict_regression(target_channels={skip_given}) raises {type(e).__name__}: {str(e)[:60]}"))
     # join / split round trip on the supplied channels
     chans = [X[:, est._channel_indices[kk][0]:est._channel_indices[kk][1]] for kk in range(n) if kk not in skip]
     J = est.join_channel_data(chans, skip_channels=list(skip_given))
@@ -114,6 +127,15 @@ def prepare_restore(rng):
         R = est.restore_data(P)
         if not all(np.allclose(a, b, atol=1e-9) for a, (b, _) in zip(R, raws)):
             return {"signature": "FusionART/prepare-restore", "text": "restore_data(prepare_data(.)) is not the identity", "replay": {"raw": [r.tolist() for r, _ in raws]}}
+        # ... and on the supplied channels when some channels are skipped (positive or negative indices)
+        skip = rng.sample(range(n), rng.randrange(1, n))
+        given = [sk - n if rng.random() < 0.5 else sk for sk in skip]
+        Ps = est.prepare_data([r for r, _ in raws], skip_channels=list(given))
+        Rs = est.restore_data(Ps, skip_channels=list(given))
+        sup = [raws[i][0] for i in range(n) if i not in skip]
+        if len(Rs) != len(sup) or not all(a.shape == b.shape and np.allclose(a, b, atol=1e-9) for a, b in zip(Rs, sup)):
+            return {"signature": "FusionART/prepare-restore", "text": f"restore_data(prepare_data(., skip={given}), skip={given}) is not the identity on the supplied channels",
+                    "replay": {"raw": [r.tolist() for r, _ in raws], "skip_channels": given}}
     except Exception as e:
         return {"signature": "FusionART/prepare-raises", "text": f"{type(e).__name__}: {str(e)[:80]}", "replay": {"raw": [r.tolist() for r, _ in raws]}}
     return None
